@@ -23,6 +23,7 @@ def real_function(world, key):
 
 def clause_namespace(world):
     ns = {name: sf.pyfn for name, sf in world.specs.items() if not getattr(sf, "derived_from", None)}
+    ns.update(world.clause_globals)
     ns["implies"] = lambda a, b: (not a) or b
     from . import native
 
